@@ -208,9 +208,11 @@ def _desugar_fn_values(facts):
             if n.get("k") == "MethodCall" and n.get("method") in HOF_ARITY:
                 for i, a in enumerate(n.get("args", [])):
                     a0 = a
-                    while isinstance(a0, dict) and a0.get("k") in ("DropTemps", "Use"):
+                    while isinstance(a0, dict) and a0.get("k") in ("DropTemps", "Use", "Cast", "Type", "AddrOf"):
                         a0 = a0["x"]
-                    if isinstance(a0, dict) and a0.get("k") == "Path" and (a0.get("res") or {}).get("res") == "Def" and (a0["res"].get("kind") in ("Fn", "AssocFn")) and a0.get("callee") and a0["res"].get("path") in local_defs:
+                    if isinstance(a0, dict) and a0.get("k") == "Path" and (a0.get("res") or {}).get("res") == "Def" and (a0["res"].get("kind") in ("Fn", "AssocFn")) and a0["res"].get("path") in local_defs:
+                        if not a0.get("callee"):
+                            a0["callee"] = {"path": a0["res"]["path"], "name": a0["res"]["path"].split("::")[-1], "krate": a0["res"].get("krate"), "kind": a0["res"].get("kind")}
                         ar = arity_of(a0, n["method"], i, len(n["args"]))
                         if ar is None or ar > 2:
                             continue
